@@ -107,6 +107,7 @@ PROPS = {
             plain("c16", "TestEnumDecode", shards_q=4, shards_t=12),
             rapid("c16", "TestPropRoundTrip", quick=(30000, 3), thorough=(400000, 8)),
             rapid("c16", "TestPropDecode", quick=(40000, 3), thorough=(500000, 8)),
+            rapid("c16", "TestPropServerEntryPoints", quick=(3000, 2), thorough=(60000, 4)),
             fuzz("c16", "FuzzUTF7", secs=90),
         ],
     },
